@@ -16,7 +16,9 @@
 (*                                                                                  *)
 (* Anchors: nsqd/protocol_v2.go IOLoop/Exec/IDENTIFY/AUTH/SUB/RDY/FIN/REQ/CLS/NOP/  *)
 (* PUB/MPUB/DPUB/TOUCH/readMPUB, nsqd/client_v2.go Identify/Set*, nsqd/tcp.go       *)
-(* Handle, internal/protocol/names.go, byte_base10.go.                              *)
+(* Handle, internal/protocol/names.go, byte_base10.go; nsqd/nsqd.go                 *)
+(* DeleteExistingTopic + nsqd/topic.go PutMessage(s) (publish to a topic that is    *)
+(* being deleted: name class "dying").                                              *)
 EXTENDS Naturals, Sequences, FiniteSets, TLC
 
 CONSTANTS Setups,       \* set of [pre |-> prepared prefix (sequence of Core commands), d |-> depth explored after it]
@@ -53,6 +55,16 @@ Max(a, b) == IF a > b THEN a ELSE b
 NameOK  == {"valid", "valid1", "valid64", "eph", "eph64"}
 NameBad == {"badchar", "toolong", "eph65", "emptyname", "onlyeph", "ephmid"}
 Names   == NameOK \cup NameBad
+\* "dying": a VALID name of a topic whose deletion has begun and is not finished.  Anchor: the ordering
+\* comment in NSQD.DeleteExistingTopic (nsqd/nsqd.go) -- topic.Delete() sets the exit flag, stops the pump
+\* and removes the files BEFORE the topic is unlinked from topicMap, "so that any incoming writes will
+\* error and not create a new topic".  In between GetTopic(name) still returns the exiting topic and
+\* Topic.PutMessage / PutMessages refuse ("exiting"); PUB / MPUB / DPUB (nsqd/protocol_v2.go) wrap that
+\* into the fatal E_PUB_FAILED / E_MPUB_FAILED / E_DPUB_FAILED.  The class is used by the three publish
+\* commands only, with otherwise valid arguments (combined faults are not tabulated: the name is looked
+\* at last).  The harness holds the window open at the verif yield point "topicdelete.afterDelete".
+NameDying == {"dying"}
+PubNames  == Names \cup NameDying
 
 \* 4-byte big-endian size prefix + body, against max-msg-size
 SizeOK  == {"one", "mid", "max"}
@@ -128,11 +140,11 @@ Cmds ==
   \cup {C("REQ", "held", x, "-") : x \in ReqNow \cup ReqDefer \cup ReqBad}
   \cup {C("REQ", x, "zero", "-") : x \in Ids} \cup {C("REQ", "never", "nondigit", "-"), C("REQ", "short", "ovf64", "-")}
   \cup {C("CLS", x, "-", "-") : x \in {"plain", "params"}}
-  \cup {C("PUB", x, "one", "-") : x \in Names} \cup {C("PUB", "valid", x, "-") : x \in Sizes}
+  \cup {C("PUB", x, "one", "-") : x \in PubNames} \cup {C("PUB", "valid", x, "-") : x \in Sizes}
   \cup {C("PUB", "missing", "-", "-"), C("PUB", "badchar", "zero", "-"), C("PUB", "eph", "max", "-")}
-  \cup {C("MPUB", x, "ok2", "-") : x \in Names} \cup {C("MPUB", "valid", x, "-") : x \in Mpubs}
+  \cup {C("MPUB", x, "ok2", "-") : x \in PubNames} \cup {C("MPUB", "valid", x, "-") : x \in Mpubs}
   \cup {C("MPUB", "missing", "-", "-"), C("MPUB", "toolong", "cntzero", "-")}
-  \cup {C("DPUB", x, "mid", "one") : x \in Names} \cup {C("DPUB", "valid", x, "one") : x \in Delays}
+  \cup {C("DPUB", x, "mid", "one") : x \in PubNames} \cup {C("DPUB", "valid", x, "one") : x \in Delays}
   \cup {C("DPUB", "valid", "mid", x) : x \in Sizes}
   \cup {C("DPUB", "missing", "missing", "-"), C("DPUB", "valid", "missing", "-"),
         C("DPUB", "badchar", "nondigit", "zero"), C("DPUB", "valid", "ovf64", "maxp1")}
@@ -175,6 +187,8 @@ If(p, code) == IF p THEN {code} ELSE {}
 NotIn(states) == If(st \notin states, "E_INVALID")      \* "cannot X in current state"
 BadName(n, code) == If(n \in NameBad, code)
 BadSize(s, code) == If(s \in SizeBad, code)
+\* the topic is being deleted: the put is refused after everything else was found in order
+Dying(c) == If(c.a \in NameDying, "E_" \o c.op \o "_FAILED")
 
 \* the faults that make the daemon answer a FATAL error: each contributes its documented code
 Fatal(c) ==
@@ -196,10 +210,13 @@ Fatal(c) ==
     [] c.op = "REQ"      -> NotIn({"sub", "closing"}) \cup If(c.a \in IdBadLen, "E_INVALID") \cup If(c.b \in ReqBad, "E_INVALID")
     [] c.op = "CLS"      -> NotIn({"sub"})
     [] c.op = "PUB"      -> If(c.a = "missing", "E_INVALID") \cup BadName(c.a, "E_BAD_TOPIC") \cup BadSize(c.b, "E_BAD_MESSAGE")
+                            \cup Dying(c)
     [] c.op = "MPUB"     -> If(c.a = "missing", "E_INVALID") \cup BadName(c.a, "E_BAD_TOPIC")
                             \cup If(c.b \in MpubBadBody, "E_BAD_BODY") \cup If(c.b \in MpubBadMsg, "E_BAD_MESSAGE")
+                            \cup Dying(c)
     [] c.op = "DPUB"     -> If("missing" \in {c.a, c.b}, "E_INVALID") \cup BadName(c.a, "E_BAD_TOPIC")
                             \cup If(c.b \in DelayBad, "E_INVALID") \cup BadSize(c.c, "E_BAD_MESSAGE")
+                            \cup Dying(c)
 
 \* non-fatal errors (only when nothing fatal applies): the id is well-formed but not in flight to THIS connection
 SoftErr(c) ==
@@ -249,7 +266,8 @@ Enqueued(c, o) ==
   ELSE <<[t |-> c.a, n |-> c.b, d |-> FALSE]>>
 
 \* topics that exist afterwards because of this command.  MPUB creates its topic before it reads
-\* the body (the code's order; a rejected MPUB body may leave an empty topic behind -- it never enqueues)
+\* the body (the code's order; a rejected MPUB body may leave an empty topic behind -- it never enqueues).
+\* A publish to a "dying" topic creates nothing: GetTopic finds the exiting topic, which then disappears.
 Created(c, o) ==
   IF c.op \in {"PUB", "DPUB", "SUB"} /\ Accepted(o) THEN {c.a}
   ELSE IF c.op = "MPUB" /\ c.a \in NameOK THEN {c.a}
@@ -360,9 +378,13 @@ FatalClosesOnlySelf ==
       /\ last'.fatal => last'.frame \in {"err", "close"} ]_vars
 
 \* a publish that was not answered OK enqueues nothing; an accepted one enqueues exactly its batch
-\* (MPUB: all of it or none of it)
+\* (MPUB: all of it or none of it).  A publish to a topic that is being deleted is always rejected
+\* (the command's own *_FAILED code, fatal), enqueues nothing and (re)creates no topic.
 RejectedPublishEnqueuesNothing ==
   [][ /\ (~(cmd'.op \in Pubs /\ last'.frame = "resp")) => enq' = enq
+      /\ (cmd'.op \in Pubs /\ cmd'.a \in NameDying) =>
+            /\ last'.frame = "err" /\ last'.fatal /\ last'.codes = {"E_" \o cmd'.op \o "_FAILED"}
+            /\ enq' = enq /\ topics' = topics
       /\ (cmd'.op \in Pubs /\ last'.frame = "resp") =>
             /\ Len(enq') = Len(enq) + 1 /\ SubSeq(enq', 1, Len(enq)) = enq
             /\ enq'[Len(enq')].t = cmd'.a /\ cmd'.a \in NameOK ]_vars
@@ -374,6 +396,7 @@ LimitsHold ==
       /\ (cmd'.op = "DPUB" /\ cmd'.a \in NameOK /\ cmd'.c \in SizeOK) => ((last'.frame = "resp") <=> (cmd'.b \in DelayOK))
       /\ (cmd'.op = "MPUB" /\ cmd'.a \in NameOK) => ((last'.frame = "resp") <=> (cmd'.b \in MpubOK))
       /\ (cmd'.op \in Pubs \cup {"SUB"} /\ cmd'.a \in NameBad) => (last'.frame = "err" /\ last'.fatal)
+      /\ (cmd'.a \in NameDying \/ cmd'.b \in NameDying) => cmd'.op \in Pubs    \* no other command has the class
       /\ (cmd'.op = "SUB" /\ cmd'.b \in NameBad) => (last'.frame = "err" /\ last'.fatal)
       /\ (cmd'.op = "IDENTIFY" /\ st = "init") => ((last'.frame = "resp") <=> (cmd'.b \in IdOK[cmd'.a]))
       /\ topics' \subseteq NameOK ]_vars
